@@ -99,39 +99,64 @@ def execute(ctx, case):
         return okp and okn and asc and len(obj.pos) == len(obj.pos_groups) and len(obj.neg) == len(obj.neg_groups)
 
     C(attached(gs, False) and len(gs.pos) == len(pos) and len(gs.neg) == len(neg), "constructor: labels detached or scores lost", "gs-ctor")
-    sw = gs.swap()
-    C(attached(sw, True) and (sw.score_class.value, sw.equal_class.value) == (FLIP[sc], FLIP[ec]) and list(sw.groups) == list(gs.groups)
-      and len(sw.pos) == len(neg) and len(sw.neg) == len(pos), "swap(): labels detached, flags not flipped or groups changed", "gs-swap")
-    fl = GroupScores.from_labels(np.concatenate([np.ones(len(pos), int), np.zeros(len(neg), int)]), np.concatenate([pos, neg]), np.concatenate([pg, ng]),
-                                 score_class=sc, equal_class=ec)
-    C(fl == gs and list(fl.groups) == list(gs.groups), "from_labels differs from the constructor", "gs-from-labels")
     allv = np.concatenate([pos, neg])
     ths = np.concatenate([allv.min() - 1 + (np.ptp(allv) + 2) * case["thr_u"], rs.choice(allv, 3), [-np.inf, np.inf]])
-    gcm = gs.group_cm(ths).matrix
-    tot = np.zeros((len(ths), 2, 2), dtype=int)
     from .. import refmodel as R
-    for i, g in enumerate(gs.groups):
-        fp, fn = pos[pg == g], neg[ng == g]
-        ref = np.array([R.count_cm(fp.tolist(), fn.tolist(), t, sc, ec) for t in ths.tolist()])
-        C(np.array_equal(gcm[i], ref), "group_cm differs from counting on the rows carrying the label", "gs-group-cm", group=str(g))
-        C(np.array_equal(Scores(fp, fn, score_class=sc, equal_class=ec).cm(ths).matrix, ref), "Scores(filtered).cm differs from counting", "gs-filtered-cm")
-        tot += ref
-    C(np.array_equal(tot, gs.cm(ths).matrix) and np.array_equal(gcm.sum(axis=0), gs.cm(ths).matrix), "per-group matrices do not sum to the overall matrix", "gs-partition")
-    for m in ("fnr", "tpr", "topr"):
-        gw = groupwise(m)(gs, threshold=ths)
-        direct = np.stack([getattr(gs[g], m)(ths) for g in gs.groups], axis=0)
-        C(np.array_equal(gw, direct, equal_nan=True) and np.array_equal(gw, getattr(gs, "group_" + m)(ths), equal_nan=True),
-          "groupwise(metric) differs from the metric applied group by group", "gs-groupwise", metric=m)
+
+    def op_swap():
+        sw = gs.swap()
+        C(attached(sw, True) and (sw.score_class.value, sw.equal_class.value) == (FLIP[sc], FLIP[ec]) and list(sw.groups) == list(gs.groups)
+          and len(sw.pos) == len(neg) and len(sw.neg) == len(pos), "swap(): labels detached, flags not flipped or groups changed", "gs-swap")
+
+    def op_from_labels():
+        fl = GroupScores.from_labels(np.concatenate([np.ones(len(pos), int), np.zeros(len(neg), int)]), np.concatenate([pos, neg]), np.concatenate([pg, ng]),
+                                     score_class=sc, equal_class=ec)
+        C(fl == gs and list(fl.groups) == list(gs.groups), "from_labels differs from the constructor", "gs-from-labels")
+
+    def op_group_cm(tag=""):
+        gcm = gs.group_cm(ths).matrix
+        tot = np.zeros((len(ths), 2, 2), dtype=int)
+        for i, g in enumerate(gs.groups):
+            fp, fn = pos[pg == g], neg[ng == g]
+            ref = np.array([R.count_cm(fp.tolist(), fn.tolist(), t, sc, ec) for t in ths.tolist()])
+            C(np.array_equal(gcm[i], ref), "group_cm differs from counting on the rows carrying the label" + tag, "gs-group-cm", group=str(g))
+            C(np.array_equal(Scores(fp, fn, score_class=sc, equal_class=ec).cm(ths).matrix, ref), "Scores(filtered).cm differs from counting", "gs-filtered-cm")
+            tot += ref
+        C(np.array_equal(tot, gs.cm(ths).matrix) and np.array_equal(gcm.sum(axis=0), gs.cm(ths).matrix), "per-group matrices do not sum to the overall matrix" + tag, "gs-partition")
+
+    def op_groupwise():
+        for m in ("fnr", "tpr", "topr"):
+            gw = groupwise(m)(gs, threshold=ths)
+            ref = np.stack([getattr(Scores(pos[pg == g], neg[ng == g], score_class=sc, equal_class=ec), m)(ths) for g in gs.groups], axis=0)
+            C(np.array_equal(gw, ref, equal_nan=True) and np.array_equal(gw, getattr(gs, "group_" + m)(ths), equal_nan=True),
+              "groupwise(metric) differs from the metric applied to each group's rows", "gs-groupwise", metric=m)
+
+    def op_getitem():
+        g = str(rs.choice(list(gs.groups)))
+        sub = gs[g]  # also judged by M-gs
+        C(np.array_equal(sub.pos, np.sort(pos[pg == g])) and np.array_equal(sub.neg, np.sort(neg[ng == g])), "gs[g] is not the sorted scores carrying the label", "gs-getitem-rows", group=g)
+
     strata_ok = all((pg == g).sum() > 0 and (ng == g).sum() > 0 for g in gs.groups)
-    for meth in ("replacement", "single_pass", "dynamic"):
-        for strat in (None, "by_label", "by_group"):
-            if strat == "by_group" and not strata_ok and meth != "replacement":
-                continue  # quantifier: every sampled stratum non-empty (single pass divides by the stratum size)
-            if strat == "by_group" and not strata_ok and meth == "replacement":
-                pass  # replacement handles empty strata
+
+    def op_sample(meth, strat):
+        def run():
             for _ in range(2):
                 b = gs.bootstrap_sample(BootstrapConfig(sampling_method=meth, stratified_sampling=strat))  # judged by M-bs (c11 + c12 facets)
                 if strat == "by_label" and meth == "replacement":
                     C(len(b.pos) == len(pos) and len(b.neg) == len(neg), "by_label: class sizes not preserved", "gs-bs-label")
+        return run
+
+    ops = [op_swap, op_from_labels, op_group_cm, op_groupwise, op_getitem, op_getitem]
+    for meth in ("replacement", "single_pass", "dynamic"):
+        for strat in (None, "by_label", "by_group"):
+            if strat == "by_group" and not strata_ok and meth != "replacement":
+                continue  # quantifier: every sampled stratum non-empty (single pass divides by the stratum size)
+            ops.append(op_sample(meth, strat))
+    # "any sequence of calls on one object": the order of queries and sampling calls is part of the case
+    order = rs.permutation(len(ops))
+    for j in order:
+        ops[int(j)]()
+    op_group_cm(" (after the whole history)")
+    op_groupwise()
     sess.sig_counts[("case",) + sig] += 1
     return bool(len(gs.groups) >= 2)
